@@ -6,8 +6,9 @@ Nodes are abstract ids (`Nat`; Go compares `Node.ID`).  The bucket a node is fil
 `logdist(tab.self.sha, n.sha)`, is a parameter function `dist : Nat → Nat` of the id
 (`sha` is a function of the id: `NewNode` sets `sha = Sha256(id)`).  `entries` and
 `replacements` are the Go slices, most recently active entry first.  The model mirrors
-the code AS IT IS: `add` (free slot) and `stuff` insert a node into `entries` without
-looking at `replacements`, `delete` of an entry leaves `replacements` alone.
+the code AS IT IS: `add` (free slot) and `stuff` take the node out of `replacements`
+(`deleteFromReplacement`, fix 2cde86cd) before inserting it into `entries`; `delete` of an
+entry leaves `replacements` alone.
 -/
 namespace BytomModel.Model.DHT
 
@@ -39,7 +40,8 @@ def delRepl (b : Bucket) (n : Nat) : Bucket :=
 /-- body of `Table.add` on the node's bucket: new bucket, change of `tab.count`, contested node -/
 def addB (b : Bucket) (n : Nat) : Bucket × Int × Option Nat :=
   if n ∈ b.entries then ((bump b n).1, 0, none)
-  else if b.entries.length < bucketSize then ({ b with entries := n :: b.entries }, 1, none)
+  else if b.entries.length < bucketSize then
+    ({ entries := n :: b.entries, replacements := b.replacements.filter (· ≠ n) }, 1, none)
   else
     let r := (b.replacements.filter (· ≠ n)) ++ [n]
     let r := if r.length > bucketSize then r.tail else r
@@ -55,7 +57,8 @@ def add (dist : Nat → Nat) (t : Table) (n : Nat) : Table × Option Nat :=
 /-- one iteration of the `stuff` loop on the node's bucket -/
 def stuffB (b : Bucket) (n : Nat) : Bucket × Int :=
   if n ∈ b.entries then (b, 0)
-  else if b.entries.length < bucketSize then ({ b with entries := b.entries ++ [n] }, 1)
+  else if b.entries.length < bucketSize then
+    ({ entries := b.entries ++ [n], replacements := b.replacements.filter (· ≠ n) }, 1)
   else (b, 0)
 
 def stuff1 (dist : Nat → Nat) (t : Table) (n : Nat) : Table :=
@@ -125,11 +128,11 @@ def total (f : Nat → Bucket) : Nat → Nat
 namespace Src
 def bucketSize : Nat := 16
 def nBuckets : Nat := 257
-def addSha : String := "1dff37e9c7a68ee28f0265dd3d91993e7adff1b779d1a6d2a247017ca6f5eedf"
-def addCalls : List String := ["logdist", "b.bump", "len", "b.addFront", "tab.nodeAddedHook", "tab.deleteFromReplacement", "append", "len", "copy", "len", "len"]
+def addSha : String := "1caa8cc6779ca0d208283269d69ae372c2bb8d256887f751d9b3f9cc100b9641"
+def addCalls : List String := ["logdist", "b.bump", "len", "tab.deleteFromReplacement", "b.addFront", "tab.nodeAddedHook", "tab.deleteFromReplacement", "append", "len", "copy", "len", "len"]
 def addIfs : List String := ["n.ID == tab.self.ID", "tab.nodeAddedHook != nil", "len(b.replacements) > bucketSize"]
-def stuffSha : String := "a7f39250d6cd1243be665139ecf522f3ee7126a14b66641fd5df884f9f4f4622"
-def stuffCalls : List String := ["logdist", "len", "append", "tab.nodeAddedHook"]
+def stuffSha : String := "10bc89352b72c873878b07b6114af94b54b417bfb0ea31eaaf11bb6d7cf68b1a"
+def stuffCalls : List String := ["logdist", "len", "tab.deleteFromReplacement", "append", "tab.nodeAddedHook"]
 def stuffIfs : List String := ["n.ID == tab.self.ID", "bucket.entries[i].ID == n.ID", "len(bucket.entries) < bucketSize", "tab.nodeAddedHook != nil"]
 def deleteSha : String := "c5ca19a8e545dc12d8949b4703ab63682fa0fe304adf660ca4c84b5cc589030e"
 def deleteCalls : List String := ["logdist", "append", "tab.deleteFromReplacement"]
@@ -149,7 +152,7 @@ def bumpIfs : List String := ["b.entries[i].ID == n.ID"]
 def addCaseBump : String := "b.bump(n)"
 def addCaseBumpCalls : List String := []
 def addCaseFree : String := "len(b.entries) < bucketSize"
-def addCaseFreeCalls : List String := ["b.addFront", "tab.nodeAddedHook"]
+def addCaseFreeCalls : List String := ["tab.deleteFromReplacement", "b.addFront", "tab.nodeAddedHook"]
 def addCaseFull : String := "default"
 def addCaseFullCalls : List String := ["tab.deleteFromReplacement", "append", "len", "copy", "len", "len"]
 end Src
